@@ -75,6 +75,7 @@ def rho_matrix(chroms):
 
 
 _UC_ENC = itertools.count()
+_MEM_CYCLE = {(sc_, cv_): itertools.count() for sc_ in ("2w", "3w", "4w") for cv_ in (False, True)}
 _TABLE_MODE = {"2w": itertools.count(1), "3w": itertools.count(2)}
 
 
@@ -85,7 +86,8 @@ def one_case(cid, rng, scheme, s, genic, cov, thorough):
     from pybrops.popgen.gmap.HaldaneMapFunction import HaldaneMapFunction
     K = SCHEME[scheme]
     # chunk size: cycled deterministically so that every class meets 1 and 2 (chunking active) in each tier
-    mem = [1, 2, None, 1024][cid % 4] if not cov else [1, 1, 2][cid % 3]
+    k_ = next(_MEM_CYCLE[(scheme, bool(cov))])       # per scheme, so that skipped plan entries cannot starve a scheme of small chunk sizes
+    mem = [1, 2, None, 1024][k_ % 4] if not cov else [1, 1, 2][k_ % 3]
     chroms = layout(rng, multi=mem in (1, 2))
     lone = cid % 3 == 0
     if lone:
@@ -99,6 +101,13 @@ def one_case(cid, rng, scheme, s, genic, cov, thorough):
     u = np.array([[rng.choice([-2, -1, 0, 1, 2]) for _ in range(T)] for _ in range(L)], dtype=float)
     if lone:
         A[:, -1] = [i % 2 for i in range(n)]; u[-1, :] = rng.choice([-2, -1, 1, 2])
+    if mem in (1, 2) and n >= 2 and len(chroms[0]) >= 3:
+        # chunking active on the first chromosome: two parents that differ at its first and its last marker in opposite directions, both
+        # markers with an effect (the cross-chunk terms of the two orders of a marker pair then differ)
+        A[0, :3] = [1, 0, 0]; A[1, :3] = [0, 0, 1]
+        for l_ in (0, 2):
+            if not u[l_].all():
+                u[l_, :] = rng.choice([-2, -1, 1, 2])
     chrgrp = np.array([k + 1 for k, ch in enumerate(chroms) for _ in ch], dtype="int64")
     genpos = np.array([x for ch in chroms for x in ch], dtype=float)
     pg = DensePhasedGenotypeMatrix(np.stack([A, A]), taxa=np.array(["p%d" % i for i in range(n)], dtype=object),
